@@ -238,3 +238,27 @@ def run(ck):
                   ("written while parsing (%s at %s in %s) but never re-initialised by %s::reset: state of an abandoned message leaks into the next one"
                    % (how, ev.loc, ev.func.name, short)), path=chain)
         ck.require(n >= 6, "only %d parser-owned fields found in W_parse for %s" % (n, short))
+
+    # ---------------- R3: a chunked message ends after its closing CRLF ----------------
+    ck.rule("C04-R3", "C must-pass-through",
+            "BodyStep::Chunk::parse reports the last chunk (Final) only on paths that consumed the line terminator after the zero size: "
+            "a message declared complete before that leaves its closing CRLF in the buffer, where it is taken for the first bytes of the "
+            "next message on the connection", 1)
+    cp = lib.single(prog, H + "Private::BodyStep::Chunk::parse")
+    zero = lib.relation_edges(cp, lambda r_: (r_.get("f") or "").endswith("Chunk::size"), lambda r_: (r_.get("t") or "").replace(" ", "").strip("()") == "0", ("==",))
+    ck.require(zero, "`size == 0` test not found in Chunk::parse")
+    FINAL = "e:" + H + "Private::BodyStep::Chunk::Final"
+    summ3 = lib.Summaries(prog)
+    consumes = summ3.lift_must(lambda e: e["k"] == "call" and (e.get("callee") or "") == "Pistache::StreamCursor::advance", "cursor-advance")
+    nfin = 0
+    for bid, k_ in zero:
+        arm = cp.blocks[bid].succs[k_]
+        if arm is None:
+            continue
+        early = [x for x in cfg.exits_without(cp, consumes, start_block=arm) if x.kind == "return" and x.event is not None and x.event.get("const") == FINAL]
+        fin = [e for e in cfg.events_from_block(cp, arm) if e["k"] == "return" and e.get("const") == FINAL]
+        nfin += len(fin)
+        ck.ob("C04-R3", "Chunk::parse/Final-after-closing-CRLF", bool(fin) and not early, (early[0].event.loc if early else (fin[0].loc if fin else cp.loc)), cp,
+              "every path from `size == 0` to `return Final` passes cursor.advance" if fin and not early else
+              "Final can be returned at line %s without the closing CRLF having been consumed" % (early[0].event.get("l") if early else "?"))
+    ck.require(nfin >= 1, "`return Final` not found after the `size == 0` test in Chunk::parse")
